@@ -75,7 +75,8 @@ def build_case(draw, table, tl, k1, k2):
     gb = pick([None, [p1, p2], [['col', n1], ['col', n2]], [['col', 'k2'], ['col', 'k1']], [p2, ['col', 'k1']]])
     ref1 = pick([p1, n1])
     ref2 = pick([p2, n2])
-    where = pick([None, None, ['gt', ['col', 'rid'], ['const', 'int', 0]]])
+    # (the last condition keeps no row: the pivoted description then has its leading column only)
+    where = pick([None, None, ['gt', ['col', 'rid'], ['const', 'int', 0]], None, ['gt', ['col', 'rid'], ['const', 'int', 1000000]]])
     having = None
     if gb is not None and pick([False, False, True]):
         having = ['gt', ['fn', 'count', [['star']]], ['const', 'int', 0]]
@@ -132,8 +133,13 @@ def prop_pivot(sh, case):
     conn, _ = harness.connect(case['tables'])
     text = bql.statement(sel)
     ru = harness.engine(conn, bql.to_ast(unpivoted))
-    rp = harness.engine(conn, bql.to_ast(sel))
+    stmt = bql.to_ast(sel)
+    rp = harness.engine(conn, stmt)
     ra = harness.engine(conn, bql.to_ast(case['alt']))
+    # the same statement object executed again: compiling PIVOT BY leaves the statement as it was
+    rp2 = harness.engine(conn, stmt)
+    if rp[0] == 'ok' and (rp2[0] != 'ok' or rp2[2] != rp[2] or [d.name for d in rp2[1]] != [d.name for d in rp[1]]):
+        fails.append((f'{part}:second-execution-differs', f'{bql.statement(sel)!r}: first {rp[1:]!r}, second {rp2[1:]!r}'[:1500]))
     for r, what in ((ru, 'unpivoted'), (rp, 'pivot'), (ra, 'alt')):
         if r[0] != 'ok':
             fails.append((exc_sig(r[1], f'{part}:{what}-raises'), f'{text!r}: {r[1]!r}'))
